@@ -25,6 +25,7 @@ type Job struct {
 	Crumb    string  `json:"crumb,omitempty"`
 	ShrinkS  float64 `json:"shrink_s,omitempty"`
 	SingleSeed uint64 `json:"single_seed,omitempty"`
+	SeedList []uint64 `json:"seed_list,omitempty"` // run exactly these run seeds (cross-process twin)
 }
 
 type WorkerOut struct {
@@ -45,6 +46,7 @@ type WorkerOut struct {
 	Extra      map[string]any    `json:"extra,omitempty"`
 	Seeds      [2]uint64         `json:"seeds"`
 	Meta       map[string]any    `json:"meta"`
+	Digests    map[string]string `json:"digests,omitempty"` // run seed -> ledger-history digest
 }
 
 func TestWorker(t *testing.T) {
@@ -104,12 +106,18 @@ func TestWorker(t *testing.T) {
 		if job.MaxRuns > 0 && out.Runs >= job.MaxRuns {
 			break
 		}
-		if time.Since(start).Seconds() > job.BudgetS {
+		if time.Since(start).Seconds() > job.BudgetS && len(job.SeedList) == 0 {
 			break
 		}
 		seed := DeriveSeed(job.BaseSeed, job.Prop, uint64(i))
 		if job.SingleSeed != 0 {
 			seed = job.SingleSeed
+		}
+		if len(job.SeedList) > 0 {
+			if out.Runs >= len(job.SeedList) {
+				break
+			}
+			seed = job.SeedList[out.Runs]
 		}
 		if job.Crumb != "" {
 			_ = os.WriteFile(job.Crumb, []byte(fmt.Sprintf(`{"prop":%q,"seed":%d,"tier":%q}`, job.Prop, seed, job.Tier)), 0o644)
@@ -138,6 +146,12 @@ func TestWorker(t *testing.T) {
 					out.Samples = append(out.Samples, sampleOf(res.Trace, 12))
 				}
 			}
+		}
+		if res.Digest != "" {
+			if out.Digests == nil {
+				out.Digests = map[string]string{}
+			}
+			out.Digests[fmt.Sprint(seed)] = res.Digest
 		}
 		for k, v := range res.Extra {
 			if out.Extra == nil {
